@@ -25,7 +25,8 @@ LEVEL_TEXT = (
 )
 LEVEL_NOTE = (
     "decides the property on the lattice only (5 tensor families, 2-3 point grids, offsets of the initial "
-    "point at 0, +-0.5, 0.9, 1.1, 2 times the tolerance); trusted: numpy.tensordot, the archive reader"
+    "point at 0, +-0.5, 0.9, 1.1, 2 times the tolerance, caller-given rtol/atol, twin initial points); trusted: "
+    "numpy.tensordot, the archive reader"
 )
 FLOOR_NONTRIVIAL = 20
 
@@ -37,8 +38,18 @@ TARGET_SETS = {
     "t2": [(64.0, 5), (49.0, 5)],
     "t3": [(49.0, 5), (64.0, 5), (81.0, 6)],
     "tov": [(36.0, 5), (49.0, 5)],  # the final EKO also lists its own starting point, present in the initial one
+    # a target of the final EKO (evolving back) coincides with ANOTHER operator of the initial EKO
+    "tother": [(25.0, 4), (49.0, 5)],
 }
-LAYOUTS = {"single": [MU1], "other-first": [OTHER, MU1], "other-last": [MU1, OTHER]}
+# a second point of the initial EKO inside the default tolerance (relative distance 4e-7) of the joining point
+TWIN = (6.0000012 * 6.0000012, 5)
+LAYOUTS = {
+    "single": [MU1],
+    "other-first": [OTHER, MU1],
+    "other-last": [MU1, OTHER],
+    "twin-first": [TWIN, MU1],
+    "twin-last": [MU1, TWIN],
+}
 # offset of the final EKO's starting mu^2 relative to the key of the initial one, and tolerances passed
 MATCH = {
     "exact": dict(delta=0.0, nf=5, kw={}, ok=True),
@@ -46,6 +57,11 @@ MATCH = {
     "in-": dict(delta=-5e-7, nf=5, kw={}, ok=True),
     "edge-in": dict(delta=0.9e-6, nf=5, kw={}, ok=True),
     "rtol-wide-in": dict(delta=5e-4, nf=5, kw=dict(rtol=1e-3), ok=True),
+    # absolute tolerance given by the caller (the pair in place / new archive shows whether it is forwarded)
+    "atol-wide-in": dict(delta=5e-4, nf=5, kw=dict(atol=0.05), ok=True),
+    "atol-zero-out": dict(delta=1e-12, nf=5, kw=dict(rtol=0.0, atol=0.0), ok=False),
+    # tolerance tight enough to tell the twin points apart
+    "rtol-1e-8": dict(delta=0.0, nf=5, kw=dict(rtol=1e-8), ok=True),
     "edge-out": dict(delta=1.1e-6, nf=5, kw={}, ok=False),
     "out": dict(delta=2e-6, nf=5, kw={}, ok=False),
     "out-": dict(delta=-2e-6, nf=5, kw={}, ok=False),
@@ -54,23 +70,39 @@ MATCH = {
     "nf": dict(delta=0.0, nf=4, kw={}, ok=False),
 }
 ERRS = ["both", "none", "ini-only", "fin-only", "fin-mixed", "fin-mixed-rev"]  # mixed: only every other target of the final EKO carries an error
+# stored error tensors are not sign definite (eko.member builds the flavour-basis error with signed weights): the rule
+# of the statement is in absolute values, so the same error presences also with entries of both signs
+ERRS_SIGNED = ["both-signed", "fin-mixed-signed"]
 RT = 1e-13  # rounding allowance relative to |later|.|earlier| (a 42-term dot product needs < 1e-14)
+
+
+def _error(kind, nx, seed, signed):
+    e = T.error(kind, nx, seed)
+    if signed:  # a sign pattern without structure in the (flavour, x) pairs; magnitudes unchanged
+        n = T.NP * nx
+        i = np.arange(n)[:, None].astype(float)
+        j = np.arange(n)[None, :].astype(float)
+        sign = np.where(np.cos(1.3 * i + 0.7 * j + 0.4 * i * j + seed) >= 0.0, 1.0, -1.0)
+        e = e * sign.reshape(e.shape)
+    return e
 
 
 def _ops(case):
     nx = case["nx"]
-    e_has = case["err"] in ("both", "ini-only", "fin-mixed", "fin-mixed-rev")
-    l_has = case["err"] in ("both", "fin-only")
+    signed = case["err"].endswith("-signed")
+    errk = case["err"][: -len("-signed")] if signed else case["err"]
+    e_has = errk in ("both", "ini-only", "fin-mixed", "fin-mixed-rev")
+    l_has = errk in ("both", "fin-only")
     ini = {}
     for k, ep in enumerate(LAYOUTS[case["layout"]]):
         kind = case["ekind"] if ep == MU1 else "dense"
         seed = 0 if ep == MU1 else 11
-        ini[ep] = (T.tensor(kind, nx, seed), T.error(kind, nx, seed) if e_has else None)
+        ini[ep] = (T.tensor(kind, nx, seed), _error(kind, nx, seed, signed) if e_has else None)
     fin = {}
     for k, ep in enumerate(TARGET_SETS[case["targets"]]):
         seed = 3 + int(ep[0]) % 7
-        has = l_has or (case["err"] == "fin-mixed" and k % 2 == 0) or (case["err"] == "fin-mixed-rev" and k % 2 == 1)
-        fin[ep] = (T.tensor(case["lkind"], nx, seed), T.error(case["lkind"], nx, seed) if has else None)
+        has = l_has or (errk == "fin-mixed" and k % 2 == 0) or (errk == "fin-mixed-rev" and k % 2 == 1)
+        fin[ep] = (T.tensor(case["lkind"], nx, seed), _error(case["lkind"], nx, seed, signed) if has else None)
     return ini, fin
 
 
@@ -116,9 +148,12 @@ def evaluate(case):
                 p_res = p_new
         except Exception as exc:  # noqa
             raised = exc
-        if not m["ok"]:
+        # two points of the initial EKO inside the tolerance: refusing is legitimate (the docstring of EKO.approx
+        # announces it), and so is composing with the operator stored at the exactly matching point
+        ambiguous = m["ok"] and case["layout"].startswith("twin") and case["match"] != "rtol-1e-8"
+        if not m["ok"] or (ambiguous and raised is not None):
             # initial points do not match: the product must be refused and nothing produced
-            res.outcome = "refused" if raised is not None else "accepted-mismatch"
+            res.outcome = ("refused-ambiguous" if ambiguous else "refused") if raised is not None else "accepted-mismatch"
             if raised is None:
                 res.fail(
                     f"ekos_product/mismatch-accepted/match={case['match']}",
@@ -138,7 +173,12 @@ def evaluate(case):
                 f"{where}: {type(raised).__name__}: {str(raised)[:300]}",
             )
             return res
-        mu20, got = T.read_archive(p_res)
+        try:
+            mu20, got = T.read_archive(p_res)
+        except Exception as exc:  # noqa
+            res.outcome = "no-archive"
+            res.fail("ekos_product/no-archive", f"{where}: the result {p_res.name} cannot be read: {type(exc).__name__}: {str(exc)[:200]}")
+            return res
         views = [("archive", got)]
         if live is not None and (sorted(live) != sorted(got) or any(not _same(live[k], got[k]) for k in got)):
             res.fail("ekos_product/live-vs-archive", f"{where}: content of the open object differs from the re-read archive")
@@ -168,9 +208,9 @@ def evaluate(case):
                 if ep in ini_ops:
                     # point present in both: keeping the initial EKO's operator is a legitimate choice
                     if _same(ops[ep], ini_ops[ep]):
-                        overlap = "kept-initial"
+                        overlap = "kept-initial" if ep == MU1 else "kept-other"
                         continue
-                    overlap = "replaced"
+                    overlap = "replaced" if ep == MU1 else "replaced-other"
                 dev = float(np.max(np.abs(val - ref) / (scale + 1e-300)))
                 if dev <= RT:
                     max_val = max(max_val, dev)  # head-room of the rounding allowance on agreeing operators
@@ -247,8 +287,34 @@ def _cases(thorough):
         for lay in layouts:
             for err in ERRS:
                 cases.append(dict(ekind="dense", lkind="dense", err=err, targets="t2", match="rtol-wide-in", mode=mode, layout=lay, nx=2))
+    # error tensors with entries of both signs
+    for ek, lk in (kinds if thorough else [("dense", "dense"), ("evol", "int"), ("perm", "dense")]):
+        for err in ERRS_SIGNED:
+            for tg in ("t3", "tov"):
+                for mode in ("inplace", "copy"):
+                    for lay in layouts:
+                        cases.append(dict(ekind=ek, lkind=lk, err=err, targets=tg, match="exact", mode=mode, layout=lay, nx=2))
+    for mode in ("inplace", "copy"):
+        cases.append(dict(ekind="dense", lkind="dense", err="both-signed", targets="t3", match="in+", mode=mode, layout="other-last", nx=3))
+    # tolerances given by the caller: absolute tolerance (accepted / refused), in place and to a new archive
+    for mt in ("atol-wide-in", "atol-zero-out"):
+        for mode in ("inplace", "copy"):
+            for lay in ("single", "other-first", "other-last"):
+                for err in ("both", "none"):
+                    cases.append(dict(ekind="dense", lkind="evol", err=err, targets="t2", match=mt, mode=mode, layout=lay, nx=2))
+    # a target of the final EKO that is another operator of the initial EKO
+    for mode in ("inplace", "copy"):
+        for lay in ("other-first", "other-last"):
+            for err in ("both", "none", "fin-only"):
+                cases.append(dict(ekind="dense", lkind="dense", err=err, targets="tother", match="exact", mode=mode, layout=lay, nx=2))
+    # two points of the initial EKO inside the default tolerance; told apart by a tight rtol
+    for mode in ("inplace", "copy"):
+        for lay in ("twin-first", "twin-last"):
+            for mt in ("exact", "rtol-1e-8"):
+                for err in ("both", "none"):
+                    cases.append(dict(ekind="dense", lkind="evol", err=err, targets="t2", match=mt, mode=mode, layout=lay, nx=2))
     # refusals
-    bad = [k for k, v in MATCH.items() if not v["ok"]]
+    bad = [k for k, v in MATCH.items() if not v["ok"] and k != "atol-zero-out"]
     for mt in bad if thorough else ["edge-out", "out", "far", "nf"]:
         for mode in ("inplace", "copy"):
             for lay in layouts:
@@ -266,13 +332,21 @@ def run(ctx):
         "two nf, one overlapping the initial EKO} (quick: last two) x offset of the final EKO's start from the initial EKO's "
         "point {0, +0.5, -0.5 tol} (quick: first two) x {in place, new archive} x layout of the initial EKO {single, other "
         "point first/last} (quick: other first); plus slices on the dense pair: single target x remaining layouts, offset 0.9 "
-        "tol, wide rtol argument, 3-point grids; refusals {1.1, +-2 tol, tight rtol, far, nf differs} x mode x layout; every "
+        "tol, wide rtol argument, 3-point grids; error tensors with entries of both signs {both, every other target} x {3 targets, "
+        "overlapping} x mode on 3 (thorough: all) kind pairs; caller's absolute tolerance {0.05: accepted, rtol=atol=0 at offset "
+        "1e-12: refused} x mode x 3 layouts; a final-EKO target equal to ANOTHER operator of the initial EKO; two initial points "
+        "4e-7 apart {default tolerance, rtol 1e-8} x mode x order; refusals {1.1, +-2 tol, tight rtol, far, nf differs} x mode x layout; every "
         "operator of the re-read result compared with the tensordot reference (live object compared with the archive); "
         "non-trivial = composed and the two factors do not commute (or refused as required)"
     )
     ctx.assumptions += [
         "operators are synthetic (closed-form tensors of 5 families), x-grids of 2 and 3 points",
-        "errors are non-negative (as produced by the solver); the rule is checked with mixed-sign values",
-        "a target present in both EKOs may keep the initial EKO's operator or receive the product (both accepted)",
+        "the rule is checked with mixed-sign values and with error tensors that are non-negative as well as of both signs",
+        "a target present in both EKOs (the joining point itself, or another operator of the initial EKO) may keep the "
+        "initial EKO's operator, bit by bit, or receive the product (both accepted; recorded in the outcome as "
+        "overlap=kept-initial / kept-other / replaced / replaced-other)",
+        "two points of the initial EKO within the tolerance of the final EKO's start: a refusal (nothing written, initial "
+        "archive untouched) or the product with the exactly matching point are both accepted; with a tolerance that "
+        "separates them the product is demanded",
         "rounding allowance 1e-13 relative to |later|.|earlier| for values, 1e-12 relative for errors",
     ]
